@@ -162,7 +162,7 @@ def single_def(b, l):
             if s["k"] == "assign" and s["p"]["l"] == l and not s["p"]["pr"]:
                 found.append(("rv", bi, si, s["rv"]))
         t = blk["term"]
-        if t["k"] == "call" and t["dest"]["l"] == l and not t["dest"]["pr"]:
+        if t is not None and t["k"] == "call" and t["dest"]["l"] == l and not t["dest"]["pr"]:
             found.append(("call", bi, t))
     return found[0] if len(found) == 1 else None
 
@@ -375,6 +375,144 @@ def desugar_body(b, bodies, known_uses, log):
                     b["blocks"][cbk]["term"] = goto(st["t"])
             log.append("%s: %s%s desugared" % (b["path"], "+".join(s[0] for s in stages) + ("+" if stages else ""), sink))
             changed = True
+            break
+    return used
+
+
+# ------------------------------------------------------------------ Option combinators
+
+OPT = "std::option::Option::<T>::"
+OPT_COMB = ("map", "map_or", "map_or_else", "and_then", "is_some_and", "is_none_or", "unwrap_or_else", "filter", "or_else", "unwrap_or", "unwrap_or_default")
+
+
+def opt_agg(variant, ops):
+    return {"k": "agg", "ak": "adt", "adt": "std::option::Option", "variant": variant, "vi": 1 if variant == "Some" else 0, "ops": ops}
+
+
+def desugar_option_combinators(b, bodies, known_uses, log):
+    """`opt.map(f)`, `map_or`, `and_then`, `is_some_and`, `unwrap_or_else`, `filter`, .. with a closure argument are rewritten into the `match` they
+    abbreviate, the closure body spliced into the arm that calls it"""
+    used = set()
+    for _round in range(40):
+        did = False
+        for bi, blk in enumerate(b["blocks"]):
+            t = blk["term"]
+            if t["k"] != "call" or blk.get("cleanup") or t.get("t") is None:
+                continue
+            fn = callee_of(t)
+            if fn is None or not fn["path"].startswith(OPT) or fn["path"][len(OPT):] not in OPT_COMB:
+                continue
+            name = fn["path"][len(OPT):]
+            if known_uses is not None and (b["path"], fn["path"]) in known_uses:
+                continue
+            args = t["args"]
+            if name in ("unwrap_or", "unwrap_or_default") and args and args[0]["k"] in ("move", "copy"):
+                # no closure: Some(x) => x, None => the given / the default value
+                loc = blk["tloc"]
+                dest, cont = t["dest"], t["t"]
+                oty = args[0]["p"].get("ty") or ""
+                inner = oty[len("std::option::Option<"):-1] if oty.startswith("std::option::Option<") else "?"
+                src = new_local(b, oty or "std::option::Option<?>")
+                d_l = new_local(b, "isize")
+                blk["stmts"].append(assign(P(src, ty=oty), use(copy.deepcopy(args[0])), loc))
+                blk["stmts"].append(assign(P(d_l), {"k": "discr", "p": P(src, ty=oty or "std::option::Option<?>")}, loc))
+                some = new_block(b, [assign(copy.deepcopy(dest), use({"k": "move", "p": P(src, [{"dc": "Some"}, {"f": 0, "n": "0"}], inner)}), loc)], goto(cont), loc)
+                if name == "unwrap_or":
+                    none = new_block(b, [assign(copy.deepcopy(dest), use(copy.deepcopy(args[1])), loc)], goto(cont), loc)
+                else:
+                    none = new_block(b, [], call(fn_operand("std::default::Default::default", [inner], trait="std::default::Default", self_ty=inner), [], copy.deepcopy(dest), cont, loc), loc)
+                unreach = new_block(b, [], {"k": "unreachable"}, loc)
+                blk["term"] = {"k": "switch", "d": mv(d_l), "dty": "isize", "ts": [[0, none], [1, some]], "else": unreach}
+                log.append("%s: Option::%s written as a match" % (b["path"], name))
+                did = True
+                break
+            cl_ops = [a for a in args[1:] if closure_of_operand(b, a, bodies) is not None]
+            want = 2 if name == "map_or_else" else 1
+            if len(cl_ops) != want or args[0]["k"] not in ("move", "copy"):
+                continue
+            loc = blk["tloc"]
+            dest, cont = t["dest"], t["t"]
+            o = args[0]
+            oty = o["p"].get("ty") or ""
+            inner = oty[len("std::option::Option<"):-1] if oty.startswith("std::option::Option<") else "?"
+            src = new_local(b, oty or "std::option::Option<?>")
+            d_l = new_local(b, "isize")
+            blk["stmts"].append(assign(P(src, ty=oty), use(copy.deepcopy(o)), loc))
+            blk["stmts"].append(assign(P(d_l), {"k": "discr", "p": P(src, ty=oty or "std::option::Option<?>")}, loc))
+            some = new_block(b, [], None, loc)
+            none = new_block(b, [], None, loc)
+            unreach = new_block(b, [], {"k": "unreachable"}, loc)
+            blk["term"] = {"k": "switch", "d": mv(d_l), "dty": "isize", "ts": [[0, none], [1, some]], "else": unreach}
+            x = new_local(b, inner)
+            b["blocks"][some]["stmts"].append(assign(P(x, ty=inner), use({"k": "move", "p": P(src, [{"dc": "Some"}, {"f": 0, "n": "0"}], inner)}), loc))
+
+            def run(cur_bb, cl_op, arg_rvs):
+                g = closure_of_operand(b, cl_op, bodies)
+                rty = g["locals"][0]["ty"]
+                res = new_local(b, rty)
+                after = new_block(b, [], None, loc)
+                pro, entry = splice(b, g, [env_rvalue(g, cl_op)] + arg_rvs, P(res, ty=rty), after, loc)
+                b["blocks"][cur_bb]["stmts"] += pro
+                b["blocks"][cur_bb]["term"] = goto(entry)
+                used.add(g["path"])
+                return res, rty, after
+
+            dty = dest.get("ty") or b["locals"][dest["l"]]["ty"]
+            if name == "map":
+                r, rty, cur = run(some, cl_ops[0], [use(mv(x, inner))])
+                b["blocks"][cur]["stmts"].append(assign(copy.deepcopy(dest), opt_agg("Some", [mv(r, rty)]), loc))
+                b["blocks"][cur]["term"] = goto(cont)
+                b["blocks"][none]["stmts"].append(assign(copy.deepcopy(dest), opt_agg("None", []), loc))
+                b["blocks"][none]["term"] = goto(cont)
+            elif name in ("and_then",):
+                r, rty, cur = run(some, cl_ops[0], [use(mv(x, inner))])
+                b["blocks"][cur]["stmts"].append(assign(copy.deepcopy(dest), use(mv(r, rty)), loc))
+                b["blocks"][cur]["term"] = goto(cont)
+                b["blocks"][none]["stmts"].append(assign(copy.deepcopy(dest), opt_agg("None", []), loc))
+                b["blocks"][none]["term"] = goto(cont)
+            elif name in ("is_some_and", "is_none_or"):
+                r, rty, cur = run(some, cl_ops[0], [use(mv(x, inner))])
+                b["blocks"][cur]["stmts"].append(assign(copy.deepcopy(dest), use(mv(r, rty)), loc))
+                b["blocks"][cur]["term"] = goto(cont)
+                b["blocks"][none]["stmts"].append(assign(copy.deepcopy(dest), use(cbool(name == "is_none_or")), loc))
+                b["blocks"][none]["term"] = goto(cont)
+            elif name == "map_or":
+                r, rty, cur = run(some, args[2], [use(mv(x, inner))])
+                b["blocks"][cur]["stmts"].append(assign(copy.deepcopy(dest), use(mv(r, rty)), loc))
+                b["blocks"][cur]["term"] = goto(cont)
+                b["blocks"][none]["stmts"].append(assign(copy.deepcopy(dest), use(copy.deepcopy(args[1])), loc))
+                b["blocks"][none]["term"] = goto(cont)
+            elif name == "map_or_else":
+                r, rty, cur = run(some, args[2], [use(mv(x, inner))])
+                b["blocks"][cur]["stmts"].append(assign(copy.deepcopy(dest), use(mv(r, rty)), loc))
+                b["blocks"][cur]["term"] = goto(cont)
+                r2, rty2, cur2 = run(none, args[1], [])
+                b["blocks"][cur2]["stmts"].append(assign(copy.deepcopy(dest), use(mv(r2, rty2)), loc))
+                b["blocks"][cur2]["term"] = goto(cont)
+            elif name == "unwrap_or_else":
+                b["blocks"][some]["stmts"].append(assign(copy.deepcopy(dest), use(mv(x, inner)), loc))
+                b["blocks"][some]["term"] = goto(cont)
+                r2, rty2, cur2 = run(none, cl_ops[0], [])
+                b["blocks"][cur2]["stmts"].append(assign(copy.deepcopy(dest), use(mv(r2, rty2)), loc))
+                b["blocks"][cur2]["term"] = goto(cont)
+            elif name == "or_else":
+                b["blocks"][some]["stmts"].append(assign(copy.deepcopy(dest), opt_agg("Some", [mv(x, inner)]), loc))
+                b["blocks"][some]["term"] = goto(cont)
+                r2, rty2, cur2 = run(none, cl_ops[0], [])
+                b["blocks"][cur2]["stmts"].append(assign(copy.deepcopy(dest), use(mv(r2, rty2)), loc))
+                b["blocks"][cur2]["term"] = goto(cont)
+            elif name == "filter":
+                rx = new_local(b, "&" + inner)
+                b["blocks"][some]["stmts"].append(assign(P(rx), {"k": "ref", "mut": False, "fake": False, "p": P(x, ty=inner)}, loc))
+                r, rty, cur = run(some, cl_ops[0], [use(mv(rx))])
+                keep = new_block(b, [assign(copy.deepcopy(dest), opt_agg("Some", [mv(x, inner)]), loc)], goto(cont), loc)
+                b["blocks"][cur]["term"] = {"k": "switch", "d": mv(r, "bool"), "dty": "bool", "ts": [[0, none]], "else": keep}
+                b["blocks"][none]["stmts"].append(assign(copy.deepcopy(dest), opt_agg("None", []), loc))
+                b["blocks"][none]["term"] = goto(cont)
+            log.append("%s: Option::%s with a closure written as a match" % (b["path"], name))
+            did = True
+            break
+        if not did:
             break
     return used
 
@@ -941,6 +1079,10 @@ def preprocess(data, known=None, known_uses=None):
                 unmerge_or_patterns(b, log)
         except Exception as e:
             log.append("%s: or-pattern splitting failed: %s" % (b["path"], e))
+        try:
+            spliced_closures |= desugar_option_combinators(b, bodies, known_uses, log)
+        except Exception as e:
+            log.append("%s: Option combinator desugaring failed: %s" % (b["path"], e))
         try:
             spliced_closures |= desugar_body(b, bodies, known_uses, log)
         except Exception as e:  # leave the body as it is: rules will fail closed on shapes they do not know
